@@ -130,10 +130,12 @@ def fform (inst fam shape : String) (a b : String) (shift : Option String) : Opt
   | "FF" =>
     -- both operands are floats (or infinities); the group holds the operator forms and, for + - * / %, the Context
     -- method at Context::max.  Required: ONE common answer.  Where the mirrored operator body and the mirrored Context
-    -- method differ (three recorded findings) the required answer is the one the contract of C03 gives — never the
-    -- defect's: `*` the operators' single rounding (Context::mul pre-shrinks: double rounding); `+ -` with a zero operand
-    -- the Context method's rounded value (the operators return an over-long operand unrounded); `/` the Context
+    -- method differ (two recorded findings) the required answer is the one the contract of C03 gives — never the
+    -- defect's: `*` the operators' single rounding (Context::mul pre-shrinks: double rounding); `/` the Context
     -- method's value where the operators trip repr_div's assertion.  Such lines are annotated `#ctx-differs`.
+    -- (`+ -`: until /repo 164990d a zero operand made the operators return the other operand unrounded and the Context
+    -- method's value was printed; the repaired operators round, `opBin = ctxBin` for add/sub is the theorem
+    -- `C15Values.operator_eq_context_addsub_table`, and the operators' value is printed like everywhere else.)
     let (.flt xa) := x | none
     let (.flt yb) := y | none
     let r ← withFinite xa yb (opBin B m (est B) fam)
@@ -141,7 +143,6 @@ def fform (inst fam shape : String) (a b : String) (shift : Option String) : Opt
     let r' := match r, c with
       | .error k, some (.ok v) => if k == kDivAssert then .ok v else r
       | .error k, some (.error k') => if k == kDivAssert then .error k' else r
-      | .ok _, some cv => if fam == "add" || fam == "sub" then cv else r
       | _, _ => r
     let s := resStr r'
     let s := match c with
